@@ -375,9 +375,44 @@ def run_cases(run: lib.Run, audit: dict, scale: int = 1, extras: bool = True):
             continue
         if not is_wf:
             run.disagreements.append({**case, "what": "schema-accepted document does not satisfy Rbacx.policyWF (hypothesis of c06_total)"})
+            # the schema lets through a document the theorem does not cover: look for a request that reaches every one of its rules
+            for q in requests_reaching(pol):
+                o2 = real.run_guard(pol, q, cfg)
+                run.count("targeted-search")
+                if "raised" in o2:
+                    run.spec_failures.append({"policy": pol, "request": q, "cfg": cfg, "impl": o2,
+                                              "spec": f"evaluation raised {o2['raised']} on a schema-valid policy and a JSON-valued request"})
+                    break
         proj = (lambda o: ("raised",) if "raised" in o else (o["ok"]["effect"], o["ok"]["reason"]))
         if proj(out) != proj(model):
             run.disagreements.append(case)
+
+
+def requests_reaching(doc) -> list:
+    """one request per rule of the document (at any nesting depth) built from the rule's own target, so that its condition is reached"""
+    out = []
+
+    def rules_of(d):
+        if isinstance(d, dict):
+            for r_ in d.get("rules") or []:
+                if isinstance(r_, dict):
+                    yield r_
+            for c in d.get("policies") or []:
+                yield from rules_of(c)
+    for rule in rules_of(doc):
+        acts = rule.get("actions") or ["read"]
+        act = next((a for a in acts if isinstance(a, str) and a != "*"), "read")
+        rd = rule.get("resource") if isinstance(rule.get("resource"), dict) else {}
+        t = rd.get("type")
+        t = (t[0] if t else "doc") if isinstance(t, list) else t
+        if t in (None, "*") or not isinstance(t, str):
+            t = "doc"
+        attrs = {}
+        a_ = rd.get("attrs") or rd.get("attributes") or {}
+        if isinstance(a_, dict):
+            attrs = {k: (v[0] if isinstance(v, list) and v else v) for k, v in a_.items()}
+        out.append({"sid": "u", "roles": [], "sattrs": {}, "action": act, "rtype": t, "rid": rd.get("id", "1"), "rattrs": attrs, "ctx": {}})
+    return out[:12]
 
 
 def overlapping_calls(run: lib.Run) -> None:
